@@ -359,7 +359,7 @@ JudgePupil(e) ==
       shape == Len(e.cells) = nw /\ \A j \in 1..Len(e.cells) : Len(e.cells[j].ex) = n /\ Len(e.cells[j].ey) = n
       labels == shape /\ \A j \in 1..nw : e.cells[j].w = wl[j] /\ e.cells[j].h = e.hfield
   IN
-  IF ~(IsFin(e.d) /\ e.d # DZero /\ AllFin(e.parax)) THEN {"~nonfinite_rays"}
+  IF ~(IsFin(e.d) /\ e.d # DZero /\ AllFin(e.parax)) THEN {"~paraxial_stop_height_not_finite"}
   ELSE
   (IF shape /\ FieldsOK(e) THEN {} ELSE {"shape"}) \cup
   (IF ~shape \/ labels THEN {} ELSE {"labels"}) \cup
